@@ -17,7 +17,7 @@ _GEOM_OK = ("0 < f32_at(d, 16) < 1 and le_bytes(d, 0, 8) >= 1 and "
             "bloom_k(le_bytes(d, 0, 8), bloom_m(le_bytes(d, 0, 8), f32_at(d, 16))) >= 1")
 
 contract("BloomFilter._parse_footer", kind="classmethod", contexts=["BloomFilter", "CountingBloomFilter"],
-         properties=["C05", "C06", "C01"],
+         properties=["C05", "C06", "C01", "C07"],
          params={"stct": "struct:QQf", "d": "bytes"}, returns="tuple[int,int,float,int,int]",
          requires=[("twenty_bytes", "len(d) >= 20"), ("stored_geometry_usable", _GEOM_OK)],
          modifies=[],
@@ -43,7 +43,7 @@ _LOADED = [("estimated_elements", "self._est_elements == le_bytes(file, len(file
            ("hash_function_kept_or_default",
             "self._hash_func == (hash_function if hash_function is not None else default_fnv_1a)")]
 
-contract("BloomFilter._load", contexts=["BloomFilter"], properties=["C05", "C06", "C01"],
+contract("BloomFilter._load", contexts=["BloomFilter"], properties=["C05", "C06", "C01", "C07"],
          params={"file": "bytes", "hash_function": "opt[hashfunc]"}, variants=[{"file": "mmap"}],
          requires=_LOAD_REQ,
          modifies=["self._est_elements", "self._fpr", "self._bloom_length", "self._hash_func", "self._els_added",
@@ -56,7 +56,7 @@ contract("BloomFilter._parse_bloom_array", contexts=["BloomFilter"], properties=
          modifies=["self._bloom"],
          ensures=[("cells_are_the_first_bytes", "len(self._bloom) == offset and all(self._bloom[i] == b[i] for i in range(0, offset))")])
 
-contract("BloomFilter.frombytes", kind="classmethod", contexts=["BloomFilter"], properties=["C05", "C06", "C01"],
+contract("BloomFilter.frombytes", kind="classmethod", contexts=["BloomFilter"], properties=["C05", "C06", "C01", "C07"],
          params={"b": "bytes", "hash_function": "opt[hashfunc]"}, returns="obj:BloomFilter",
          requires=[r if not isinstance(r, tuple) else (r[0], r[1].replace("file", "b")) for r in _LOAD_REQ[:3]],
          modifies=[],
@@ -306,7 +306,7 @@ contract("BloomFilter._load_hex@CountingBloomFilter", contexts=_CB, properties=[
 _GEOM_OK_BE = ("0 < f32_at_be(d, 16) < 1 and be_bytes(d, 0, 8) >= 1 and "
                "bloom_k(be_bytes(d, 0, 8), bloom_m(be_bytes(d, 0, 8), f32_at_be(d, 16))) >= 1")
 contract("BloomFilter._parse_footer@be", kind="classmethod", contexts=["BloomFilter", "CountingBloomFilter"],
-         properties=["C05", "C06", "C01"],
+         properties=["C05", "C06", "C01", "C07"],
          params={"stct": "struct:>QQf", "d": "bytes"}, returns="tuple[int,int,float,int,int]",
          requires=[("twenty_bytes", "len(d) >= 20"), ("stored_geometry_usable", _GEOM_OK_BE)],
          modifies=[],
